@@ -625,7 +625,8 @@ class ExcelInPython:
 
 
         average_range = _when_bool_cast_to_int([i for i in average_range if not isinstance(i, Undefined)])
-        if not average_range or [True for i in average_range if isinstance(i, self.EmptyCell)]:
+        # empty cells among the selected ones are left out of the average; nothing numeric left means #DIV/0!
+        if not self._only_numeric_list(average_range):
             return '#DIV/0!'
 
         return self._average(average_range)
